@@ -689,7 +689,7 @@ func (g *c12) decoders(n int) {
 func (g *c12) hashing(n int) {
 	r := g.r
 	dts := []string{"", "x", xsdNS + "integer", xsdNS + "boolean", xsdNS + "dateTime", xsdNS + "double", xsdNS + "string", xsdNS + "positiveInteger", xsdNS + "nonPositiveInteger", xsdNS + "unknown"}
-	vals := []any{nil, "", " ", "0", "-0", "1e400", "1e-400", "NaN", "Inf", "0x10", "1/0", "1/3", "9" + strings.Repeat("9", 400), "1e999999", "1e-999999", ".", "e", "-", "2020-01-01", "0000-00-00", "9999-12-31T23:59:59.999999999+23:59",
+	vals := []any{nil, "", " ", "0", "-0", "1e400", "1e-400", "NaN", "Inf", "0x10", "1/0", "1/3", "9" + strings.Repeat("9", 400), "1e999999", "1e-999999", "0e100000000", "1e100000000", "1e-100000000", "0.0E-999999999", "7e2147483647", "1e9223372036854775807", "1e-9223372036854775808", "0e99999999999999999999", "1E+1000001", "5e-1000001", ".", "e", "-", "2020-01-01", "0000-00-00", "9999-12-31T23:59:59.999999999+23:59",
 		"true", true, false, 0, -1, int8(-128), int16(5), int32(7), int64(-1 << 63), uint(5), uint8(255), uint64(1<<64 - 1), float32(1.5), 1e308, -1e-308, 5.0, []int{1}, map[string]any{}, struct{}{}, &struct{}{}, big.NewInt(5), time.Now()}
 	for _, dt := range dts {
 		for _, v := range vals {
